@@ -183,6 +183,8 @@ fn configs(tier: Tier) -> Vec<(Prog, usize, usize, Option<usize>)> {
                 v.push((Prog::Chain3, 2, cap, None));
                 v.push((Prog::Fanout, 2, cap, None));
             }
+            v.push((Prog::SharedCtx, 2, 8, None));
+            v.push((Prog::SharedCtxFan, 2, 8, Some(2)));
         }
         Tier::Thorough => {
             for cap in [1usize, 2, 8] {
@@ -195,6 +197,9 @@ fn configs(tier: Tier) -> Vec<(Prog, usize, usize, Option<usize>)> {
                 v.push((Prog::Chain3, 4, cap, Some(2)));
                 v.push((Prog::Fanout, 2, cap, None));
                 v.push((Prog::Fanout, 3, cap, Some(3)));
+                v.push((Prog::SharedCtx, 3, cap, None));
+                v.push((Prog::SharedCtxFan, 2, cap, None));
+                v.push((Prog::SharedCtxFan, 3, cap, Some(2)));
             }
         }
     }
